@@ -86,7 +86,8 @@ def prepare(work, generators=()):
     cargo = cargo.replace("@FEATURES@", "\n".join('%s = []' % m for m in mods))
     open(os.path.join(h, "Cargo.toml"), "w").write(cargo)
     os.remove(os.path.join(h, "Cargo.toml.in"))
-    shutil.copy(os.path.join(REPO, "Cargo.lock"), os.path.join(h, "Cargo.lock"))
+    if os.path.exists(os.path.join(REPO, "Cargo.lock")):
+        shutil.copy(os.path.join(REPO, "Cargo.lock"), os.path.join(h, "Cargo.lock"))
     return h
 
 
@@ -155,15 +156,31 @@ def _codegen_one(hdir, features, target):
 def kani_codegen(hdir, features, target, groups=10):
     """Kani code generation, in parallel: the scenario modules are dealt into up to `groups`
     cargo invocations, each with its own (persistent, cached) target directory."""
+    import fcntl
     t0 = time.time()
     features = list(features)
     k = max(1, min(groups, (len(features) + 1) // 2 if len(features) > 3 else 1))
     buckets = [features[i::k] for i in range(k)]
     hs = []
-    with concurrent.futures.ThreadPoolExecutor(max_workers=k) as ex:
-        futs = [ex.submit(_codegen_one, hdir, b, "%s-g%02d" % (target, i) if k > 1 else target) for i, b in enumerate(buckets)]
-        for f in futs:
-            hs += f.result()
+    # the cached target directories are shared by all checks: serialise the build phase across
+    # concurrently running checks (the CBMC phase runs unlocked, on per-check copies of the goto files)
+    os.makedirs(os.path.dirname(target), exist_ok=True)
+    with open(target + ".lock", "w") as lk:
+        fcntl.flock(lk, fcntl.LOCK_EX)
+        with concurrent.futures.ThreadPoolExecutor(max_workers=k) as ex:
+            futs = [ex.submit(_codegen_one, hdir, b, "%s-g%02d" % (target, i) if k > 1 else target) for i, b in enumerate(buckets)]
+            for f in futs:
+                hs += f.result()
+        # keep this check's goto binaries out of the shared cache
+        keep = os.path.join(os.path.dirname(hdir), "goto")
+        os.makedirs(keep, exist_ok=True)
+        for h in hs:
+            base = h["symtab"][:-len(".symtab.out")]
+            for ext in (".symtab.out", ".out"):
+                if os.path.exists(base + ext):
+                    shutil.copy(base + ext, keep)
+            h["symtab"] = os.path.join(keep, os.path.basename(h["symtab"]))
+        fcntl.flock(lk, fcntl.LOCK_UN)
     return hs, time.time() - t0, "", []
 
 
